@@ -318,7 +318,13 @@ func (c *Ctx) typeInvs(v Val, t types.Type, depth int) []string {
 				comps = append(comps, comp)
 				rng = append(rng, tAnd(tLe("0", comp), tLe(comp, "255")))
 			}
-			out = append(out, tForall([][2]string{{kv, SInt}}, tImp(tSel(m.Has, kv), tAnd(tEq(kv, app(kn, comps...)), tAnd(rng...))), tSel(m.Has, kv)))
+			lim := int64(1)
+			for i := int64(0); i < at.Len(); i++ {
+				lim *= 256
+			}
+			_, _ = comps, rng
+			_ = kn
+			out = append(out, tForall([][2]string{{kv, SInt}}, tImp(tSel(m.Has, kv), tAnd(tLe("0", kv), tLt(kv, tInt(lim)))), tSel(m.Has, kv)))
 		}
 		n := fmt.Sprintf("tk!%d", depth)
 		sub := c.typeInvs(vSelect(m.Val, n), m.V, depth+1)
